@@ -129,6 +129,7 @@ impl ISocket for ReqSocket {
       }
     }
 
+    verif_point!("req_send:state_checked");
     let timeout_opt: Option<Duration> = { self.core.core_state.read().options.sndtimeo };
 
     // === ASYNC OPERATION: Find a Peer (No Lock Held) ===
